@@ -519,6 +519,15 @@ class Router:
         except (PacketTooLongException, SendingException):
             pass
 
+    def _cbf_discard(self, cbf_key: tuple) -> None:
+        """
+        §F.3: remove a packet from the CBF buffer and stop its timer (no-op when not buffered).
+        """
+        with self._cbf_lock:
+            timer = self._cbf_buffer.pop(cbf_key, None)
+        if timer is not None:
+            timer.cancel()
+
     def gn_area_cbf_forwarding(
         self,
         basic_header: BasicHeader,
@@ -1673,6 +1682,10 @@ class Router:
             print("Incongruent Timestamp Detected!")
         except DuplicatedPacketException:
             print("Packet is duplicated")
+            # §F.3: a duplicate overheard while the packet is still waiting in the CBF buffer
+            # means another forwarder was faster → stop the timer and discard the buffered copy.
+            self._cbf_discard(
+                (gbc_extended_header.so_pv.gn_addr, gbc_extended_header.sn))
         except DecodeError as e:
             print(str(e))
         return None
